@@ -1337,3 +1337,43 @@ package scipipe
 //@   loop 2 invariant drained-d: forall k string, j int :: joinPort(portInfos, k) && 0 <= j && j < len(t.subStreamIPs[k]) ==> t.subStreamIPs[k][j] == chanInAt(subChan(inIPs, k), old(chanRecvN(subChan(inIPs, k))) + j)
 //@   loop 2 invariant nothing-sent: forall c chan *FileIP :: !fresh(c) ==> chanSentN(c) == old(chanSentN(c))
 //@   loop 2 invariant no-effects: effCreated == old(effCreated) && effMkdir == old(effMkdir) && effRenamed == old(effRenamed) && effRemoved == old(effRemoved) && effExec == old(effExec)
+
+// ---------------------------------------------------------------------------
+// process.go: task creation (C04: one task per complete input set, C08: in arrival order)
+// ---------------------------------------------------------------------------
+
+//@ ghost func taskChanOwner(ch ref) ref
+
+//@ define wfProcess(p *Process) bool = p != nil && p.workflow != nil && wfInPorts(p.inPorts) && wfInParamPorts(p.inParamPorts) && p.outPorts != nil && p.PathFuncs != nil && p.PortInfo != nil && (forall k string :: k in p.PortInfo ==> p.PortInfo[k] != nil) && (forall k string :: joinPort(p.PortInfo, k) ==> k in p.inPorts)
+//@ define taskOK(t *Task) bool = wfTask(t) && t.Process != nil && t.portInfos == t.Process.PortInfo && t.cores == t.Process.CoresPerTask && t.workflow == t.Process.workflow && chanCap(t.Done) == 0 && (forall o string :: o in t.OutIPs <==> o in t.Process.PathFuncs) && (forall o string :: o in t.OutIPs ==> validIP(t.OutIPs[o]) && (t.OutIPs[o].doStream <==> (o in t.Process.PortInfo && t.Process.PortInfo[o].doStream)))
+// Every task that travels through a process's task channel was built by NewTask for that process.
+//@ chaninv *Task task-ok[C04]: taskOK($v) && $v.Process == taskChanOwner($ch)
+
+// Sub-streams of the carrier IPs received on different joined in-ports are different channels (assumed: a carrier IP is
+// consumed by one joined in-port only).
+//@ define distinctSubStreams(portInfos map[string]*PortInfo, inIPs map[string]*FileIP) bool = forall k1 string, k2 string :: joinPort(portInfos, k1) && joinPort(portInfos, k2) && k1 != k2 ==> subChan(inIPs, k1) != subChan(inIPs, k2)
+
+//@ func (*Process).createTasks(p) (ch)
+//@   props C04 C08
+//@   requires wf: wfProcess(p)
+//@   modifies fresh
+//@   atmakechan owner: taskChanOwner($ch) == p
+//@   ensures fresh-channel: ch != nil && fresh(ch) && chanCap(ch) == 0 && taskChanOwner(ch) == p && chanRecvN(ch) == 0
+
+//@ define portsAdvanced(p *Process, n int) bool = (forall i string :: i in p.inPorts ==> chanRecvN(p.inPorts[i].Chan) == old(chanRecvN(p.inPorts[i].Chan)) + n) && (forall i string :: i in p.inParamPorts ==> chanRecvN(p.inParamPorts[i].Chan) == old(chanRecvN(p.inParamPorts[i].Chan)) + n)
+
+//@ func (*Process).createTasks$1()
+//@   props C04 C08
+//@   requires wf: wfProcess(p) && ch != nil && taskChanOwner(ch) == p && !chanClosed(ch)
+//@   requires distinct-substreams: true
+//@   modifies *
+//@   ensures channel-closed-once[C04]: chanClosed(ch)
+//@   ensures one-task-per-complete-input-set[C04]: portsAdvancedAtExit(p, chanSentN(ch) - old(chanSentN(ch)))
+//@   ensures single-task-without-ports[C04]: len(p.inPorts) == 0 && len(p.inParamPorts) == 0 ==> chanSentN(ch) == old(chanSentN(ch)) + 1
+//@   loop 0 invariant count: chanSentN(ch) >= old(chanSentN(ch)) && !chanClosed(ch)
+//@   loop 0 invariant lockstep[C04]: portsAdvanced(p, chanSentN(ch) - old(chanSentN(ch)))
+//@   loop 0 invariant no-ports-first-round: len(p.inPorts) == 0 && len(p.inParamPorts) == 0 ==> chanSentN(ch) == old(chanSentN(ch))
+//@   loop 0 invariant wf: wfProcess(p) && ch != nil && taskChanOwner(ch) == p
+
+// at exit every port has been read n or n+1 times (the round in which some port was found closed reads the ports before it once more)
+//@ define portsAdvancedAtExit(p *Process, n int) bool = n >= 0 && (forall i string :: i in p.inPorts ==> chanRecvA(p.inPorts[i].Chan) >= old(chanRecvA(p.inPorts[i].Chan)) + n && chanRecvN(p.inPorts[i].Chan) >= old(chanRecvN(p.inPorts[i].Chan)) + n && chanRecvN(p.inPorts[i].Chan) <= old(chanRecvN(p.inPorts[i].Chan)) + n + 1)
